@@ -68,3 +68,46 @@ Example exA_solution : lincomb 3 [2; -7; 1; 1] exA = vzero 3
 Proof. vm_compute. auto. Qed.
 Example ex_independent : hnf_with_u [[2; 1]; [0; 3]] = Done ([[6; 0]; [2; 1]], [[3; -1]; [1; 0]], 0%nat).
 Proof. vm_compute. reflexivity. Qed.
+
+(** ** determinant and rank statements (MathComp: [\det] Leibniz determinant, [\rank] rank over a field)
+
+    [zmx n m a] (C18) reads a list of integer rows as an n x m MathComp matrix over Z; [mxQ n m a :=
+    map_mx q_of_Z (zmx n m a)] is the same matrix with entries in BigRational = Qc (coq/Refine/DetBridge.v,
+    which proves [zmx (mmul m U A) = zmx U *m zmx A], [zmx (idmat n) = 1%:M], row stacking, and
+    [In_rowspanZ] <-> integer row vector times the matrix). *)
+From mathcomp Require Import all_ssreflect ssralg matrix mxalgebra.
+From mathcomp Require Import ssrZ.
+From RNT.Refine Require Import QcField LinAlgQc DetBridge DetHnf.
+Local Open Scope ring_scope.
+
+(** [P] hnf_U_det: the transformation matrix has determinant +1 or -1 *)
+Theorem hnf_U_det : forall A n m H U k,
+  MatZ.shape n m A -> (1 <= n)%coq_nat -> (1 <= m)%coq_nat -> hnf_with_u A = Done (H, U, k) ->
+  \det (zmx n n U) = 1%Z \/ \det (zmx n n U) = (-1)%Z.
+Proof. exact DetHnf.hnf_U_det. Qed.
+
+(** [P] kernel_rank: the number k of kernel rows is n - rank(A), rank taken over Q; #rows H = rank(A) *)
+Theorem kernel_rank : forall A n m H U k,
+  MatZ.shape n m A -> (1 <= n)%coq_nat -> (1 <= m)%coq_nat -> hnf_with_u A = Done (H, U, k) ->
+  \rank (mxQ n m A) = length H /\ k = (n - \rank (mxQ n m A))%nat.
+Proof. exact DetHnf.hnf_rank_Q. Qed.
+
+Theorem kernel_rank_count : forall A n m K,
+  MatZ.shape n m A -> (1 <= n)%coq_nat -> (1 <= m)%coq_nat -> hnf_kernel A = Done K ->
+  length K = (n - \rank (mxQ n m A))%nat.
+Proof. exact DetHnf.kernel_rank_count. Qed.
+
+(** non-vacuity: the 4 x 3 example of rank 2 above; its U has determinant +-1 and its kernel 4 - 2 rows *)
+Example exA_U_det :
+  let U := [[1; -2; 0; 0]; [0; -3; 1; 1]; [0; 4; 0; -3]; [0; -3; 0; 2]]%Z in
+  hnf_with_u exA = Done ([[5; 1; 0]; [-3; 0; 1]]%Z, U, 2%nat) /\
+  (\det (zmx 4 4 U) = 1%Z \/ \det (zmx 4 4 U) = (-1)%Z) /\ \rank (mxQ 4 3 exA) = 2%nat.
+Proof.
+have E : hnf_with_u exA = Done ([[5; 1; 0]; [-3; 0; 1]]%Z,
+           [[1; -2; 0; 0]; [0; -3; 1; 1]; [0; 4; 0; -3]; [0; -3; 0; 2]]%Z, 2%nat) by vm_compute.
+have h1 : (1 <= 4)%coq_nat by repeat constructor.
+have h3 : (1 <= 3)%coq_nat by repeat constructor.
+split; first exact: E.
+split; first exact: (hnf_U_det _ _ _ _ _ _ exA_shape h1 h3 E).
+by case: (kernel_rank _ _ _ _ _ _ exA_shape h1 h3 E).
+Qed.
